@@ -106,8 +106,8 @@ Fixpoint lookup (name : string) (t : list (string * (list Z -> list Z))) : optio
 
 (* the loops of givaro's own have three outcomes (value / exception / does not return): looked up first by the driver *)
 Definition table_o : list (string * (list Z -> outcome)) :=
-  ("logp", fun l => logp_o (A 0 l) (A 1 l)) :: ("pp", fun l => pp_o (A 0 l) (A 1 l)) ::
-  ("logp_fixed", fun l => logp_fixed_o (A 0 l) (A 1 l)) :: ("pp_fixed", fun l => pp_fixed_o (A 0 l) (A 1 l)) :: nil.
+  ("logp", fun l => logp_fixed_o (A 0 l) (A 1 l)) :: ("pp", fun l => pp_fixed_o (A 0 l) (A 1 l)) ::
+  ("logp_before_fix6", fun l => logp_o (A 0 l) (A 1 l)) :: ("pp_before_fix5", fun l => pp_o (A 0 l) (A 1 l)) :: nil.
 Fixpoint lookup_o (name : string) (t : list (string * (list Z -> outcome))) : option (list Z -> outcome) :=
   match t with
   | nil => None
